@@ -158,6 +158,9 @@ def run(tier, seed, rep):
         rep.add_many(res)
     cases = [(c, 'udp') for c in et_configs(tier, seed)] + [(c, 'udp') for c in dt_configs(tier, seed)]
     cases += [(c, 'tcp') for i, c in enumerate(et_configs('quick', seed)) if i % 16 == 0]
+    for mode in ('bytecount', 'zero', 'echo6', 'plus7'):
+        cases += [(dict(c, mbap_length=mode), 'tcp') for i, c in enumerate(et_configs('quick', seed)) if i % 64 == 1]
+        cases += [(dict(c, mbap_length=mode), 'tcp') for i, c in enumerate(dt_configs('quick', seed)) if i % 8 == 0]
     k = 64
     total = reads = 0
     states = set()
